@@ -67,17 +67,20 @@ STAGES = []       # set by pregen(): depends on whether the f = 0 defect is pres
 
 
 def _sphere_defect_present():
-    r = o_sphere({'a': 6051800.0, 'GM': 3.24858e14, 'w': -2.9923691869737844e-07, 'lat': 45.0, 'h': 0.0})
+    r = o_sphere({'a': 6051800.0, 'GM': 324869550209999.94, 'w': -2.9923691869737844e-07, 'lat': 45.0, 'h': 0.0})
     return r is not None and r.get('tag') == FINDING
 
 
 def pregen(ctx):
-    """unchanged tree: the refuted file exhibits the defect inside the model; patched tree: the sphere theorems."""
+    """unchanged tree: the refuted file exhibits the defect inside the model; patched tree: the sphere theorems.
+    The statement files of the last stage are split (C16_a/b/c.v + C16.v) because every Print Assumptions that reaches the
+    Interval library costs ~6 s; they are compiled in parallel."""
     global STAGES
+    last = ['C16_a.v', 'C16_b.v', 'C16_c.v', 'C16.v']
     if _sphere_defect_present():
-        STAGES = [['C16_model.v', 'C16_formulas.v', 'C16_bodies.v', ('C16_refuted.v', {'finding': FINDING})], ['C16_gravity.v'], ['C16.v']]
+        STAGES = [['C16_model.v', 'C16_formulas.v', 'C16_bodies.v', ('C16_refuted.v', {'finding': FINDING})], ['C16_gravity.v'], last]
     else:
-        STAGES = [['C16_model.v', 'C16_formulas.v', 'C16_bodies.v'], ['C16_gravity.v', 'C16_sphere.v'], ['C16.v']]
+        STAGES = [['C16_model.v', 'C16_formulas.v', 'C16_bodies.v'], ['C16_gravity.v'], last + ['C16_sphere.v']]
         ctx.say('[C16] the f = 0 branch no longer returns m: compiling the sphere theorems (C16_sphere.v) instead of the refutation')
 
 
@@ -120,7 +123,9 @@ def _params(rng, n):
 
 def correspondence(ctx):
     n = ctx.n(24, 200)
-    ps = _params(ctx.rng, n)
+    # f = 0 with w = 0 is left to the search: on the unchanged tree ge = m = 0 there and the Python-float division b*gp/(a*ge)
+    # raises ZeroDivisionError where the IEEE model has NaN
+    ps = [p for p in _params(ctx.rng, n) if not (p['f'] == 0 and p['w'] == 0)]
     one = lambda name, f, **k: ctx.correspond(f'C16_{name}', ps, f, **k)
     # q0 = (1+3/e'^2) atan e' - 3/e' cancels ~ e'^-4 digits: both sides run the same binary64 operations, the slack only
     # absorbs pow-vs-multiplication differences amplified by that cancellation (f >= 1e-6: up to ~1e-3 relative)
@@ -202,7 +207,25 @@ def o_identities(inp):
         return bad('equatorial_normal_gravity-far-from-sphere', ge, ges)
     if abs(gp - gps) > (0.5 * m * x2 * 1.05 + m * _qtol(f)) * GM / (a * a) + TOL * gps:
         return bad('polar_normal_gravity-far-from-sphere', gp, gps)
-    # J2 and U0 against their closed forms written with E and atan(E/b)
+    # J2, C20, U0 against the closed forms written with E = sqrt(a^2 - b^2) and atan(E/b)  (Moritz 1980)
+    E = math.sqrt(a * a - b * b)
+    at = math.atan2(E, b)
+    q0 = 0.5 * ((1 + 3 * b * b / (E * E)) * at - 3 * b / E)
+    J2 = (E * E) / (a * a) * (1 - 2 * m * (E / b) / (15 * q0)) / 3
+    j2, c20, u0 = e.dynamical_form_factor, e.second_degree_zonal_harmonic, e.normal_gravity_potential
+    if abs(j2 - J2) > TOL * abs(J2) + (f + m) * _qtol(f):
+        return bad('dynamical_form_factor', j2, J2)
+    if abs(c20 + j2 / math.sqrt(5.0)) > 1e-12 * abs(j2):
+        return bad('second_degree_zonal_harmonic', c20, -j2 / math.sqrt(5.0))
+    U0 = GM * at / E + w * w * a * a / 3
+    if _rel(u0, U0) > TOL + 1e-15 / f:
+        return bad('normal_gravity_potential', u0, U0)
+    # mean_normal_gravity is a series in e^2 truncated at e^8 (1e-3 accurate at f = 0.1): only its closed form is compared
+    k, e2 = b * gp / (a * ge) - 1, (a * a - b * b) / (a * a)
+    gmean = ge * (1 + e2 / 6 + k / 3 + 59 * e2 ** 2 / 360 + 5 * e2 * k / 18 + 2371 * e2 ** 3 / 15120 + 259 * e2 ** 2 * k / 1080
+                  + 270229 * e2 ** 4 / 1814400 + 9623 * e2 ** 3 * k / 45360)
+    if _rel(e.mean_normal_gravity, gmean) > TOL:
+        return bad('mean_normal_gravity', e.mean_normal_gravity, gmean)
     return None
 
 
@@ -223,9 +246,22 @@ def o_gravity(inp):
     for s in (90.0, -90.0):
         if _rel(e.normal_gravity(s), gp) > TOL:
             return bad('pole', e.normal_gravity(s), gp)
+    GM, w = inp['GM'], inp['w']
+    b = a * (1 - f)
+    m = w * w * a * a * b / GM
+    ph = math.radians(lat)
+    c2, s2 = math.cos(ph) ** 2, math.sin(ph) ** 2
+    somig = (a * ge * c2 + b * gp * s2) / math.sqrt(a * a * c2 + b * b * s2)        # Somigliana's closed formula (first form)
+    if _rel(e.normal_gravity(lat), somig) > TOL:
+        return bad('somigliana', e.normal_gravity(lat), somig)
     prev = None
     for h in hs:
         g, gn = e.normal_gravity(lat, h), e.normal_gravity(-lat, h)
+        want = somig * (1 - 2 * h * (1 + f + m - 2 * f * s2) / a + 3 * h * h / (a * a))
+        if _rel(g, want) > TOL:
+            return bad('height-formula', g, want)
+        if e.normal_gravity(lat, h) != g:
+            return bad('second-call-differs', e.normal_gravity(lat, h), g)
         if not np.isfinite(g) or g <= 0:
             return bad('positivity', g, '> 0')
         if _rel(g, gn) > 1e-12:
@@ -299,6 +335,16 @@ def o_formulas(inp):
     if _rel(I(90.0), ge * (1 + b1)) > 1e-12 or _rel(I(-90.0), ge * (1 + b1)) > 1e-12:
         return {'tag': f'international_gravity/pole/{ep}', 'observed': I(90.0), 'expected': ge * (1 + b1)}
     g = I(lat)
+    b2 = {'1930': 5.9e-6, '1948': 5.9e-6, '1967': 5.9e-6, '1980': 5.8e-6, '1984': 5.8e-6}[ep]
+    ph = math.radians(lat)
+    want = ge * (1 + b1 * math.sin(ph) ** 2 - b2 * math.sin(2 * ph) ** 2)
+    if _rel(g, want) > 1e-12:
+        return {'tag': f'international_gravity/series/{ep}', 'observed': g, 'expected': want}
+    wantw = 9.780318 * (1 + 0.0053024 * math.sin(ph) ** 2 - 0.0000058 * math.sin(2 * ph) ** 2) - 0.000003085 * h
+    if _rel(ahrs.utils.welmec_gravity(lat, h), wantw) > 1e-12:
+        return {'tag': 'welmec_gravity/series', 'observed': ahrs.utils.welmec_gravity(lat, h), 'expected': wantw}
+    if abs(lat) < 90 and (call_raises(lambda: I(90.0 + abs(lat) + 1e-9)) != 'ValueError' or call_raises(lambda: ahrs.utils.welmec_gravity(-90.0 - abs(lat) - 1e-9, h)) != 'ValueError'):
+        return {'tag': f'international_gravity/latitude-guard/{ep}', 'observed': 'no ValueError beyond +-90', 'expected': 'ValueError'}
     if _rel(g, I(-lat)) > 1e-14 or not (ge * (1 - 1e-5) <= g <= ge * (1 + b1) * (1 + 1e-12)):
         return {'tag': f'international_gravity/symmetry-or-range/{ep}', 'observed': [g, I(-lat)], 'expected': [ge, ge * (1 + b1)]}
     W = ahrs.utils.welmec_gravity
@@ -310,7 +356,43 @@ def o_formulas(inp):
     return None
 
 
-ORACLES = {'identities': o_identities, 'gravity': o_gravity, 'sphere': o_sphere, 'body': o_body, 'formulas': o_formulas}
+def call_raises(f):
+    try:
+        f()
+    except Exception as e:       # noqa
+        return type(e).__name__
+    return None
+
+
+def o_types(inp):
+    """integer-typed arguments (Python ints / numpy ints) give the float results; properties do not depend on call order"""
+    import ahrs
+    from ahrs.utils.geodesy import ReferenceEllipsoid
+    a, f, GM, w, lat, h = int(inp['a']), inp['f'], int(inp['GM']), inp['w'], int(inp['lat']), int(inp['h'])
+    ef, ei = ReferenceEllipsoid(float(a), f, float(GM), w), ReferenceEllipsoid(a, f, GM, w)
+    for name in ('b', 'first_eccentricity_squared', 'second_eccentricity_squared', 'linear_eccentricity', 'normal_gravity_constant',
+                 'equatorial_normal_gravity', 'polar_normal_gravity', 'dynamical_form_factor', 'normal_gravity_potential', 'mean_normal_gravity'):
+        x, y = getattr(ef, name), getattr(ei, name)
+        if not np.isfinite(y) or _rel(x, y) > 1e-12:
+            return {'tag': f'{name}/integer-arguments', 'observed': y, 'expected': x}
+        if getattr(ei, name) != y:
+            return {'tag': f'{name}/second-read-differs', 'observed': getattr(ei, name), 'expected': y}
+    ge_first = ei.equatorial_normal_gravity
+    for fl, il in (((float(lat), float(h)), (lat, h)), ((float(lat), float(h)), (np.int64(lat), np.int64(h))), ((float(lat), 0.0), (lat, 0))):
+        for nm, F in (('normal_gravity', ei.normal_gravity), ('WGS.normal_gravity', ahrs.utils.WGS().normal_gravity), ('welmec_gravity', ahrs.utils.welmec_gravity)):
+            x, y = F(*fl), F(*il)
+            if not np.isfinite(y) or _rel(x, y) > 1e-12:
+                return {'tag': f'{nm}/integer-arguments', 'observed': y, 'expected': x}
+    for ep in EPOCHS:
+        x, y = ahrs.utils.international_gravity(float(lat), epoch=ep), ahrs.utils.international_gravity(lat, epoch=ep)
+        if _rel(x, y) > 1e-12:
+            return {'tag': f'international_gravity/integer-arguments/{ep}', 'observed': y, 'expected': x}
+    if ei.equatorial_normal_gravity != ge_first:
+        return {'tag': 'equatorial_normal_gravity/changes-after-normal_gravity-calls', 'observed': ei.equatorial_normal_gravity, 'expected': ge_first}
+    return None
+
+
+ORACLES = {'types': o_types, 'identities': o_identities, 'gravity': o_gravity, 'sphere': o_sphere, 'body': o_body, 'formulas': o_formulas}
 
 
 def cm_call(f, inp):
@@ -345,4 +427,9 @@ def search(ctx, scale):
         lat = lats[i] if i < len(lats) else float(ctx.rng.uniform(-90, 90))
         inp = {'lat': lat, 'h': float(ctx.rng.uniform(0, 9000)), 'epoch': EPOCHS[i % 5]}
         ctx.check('formulas', inp, cm_call(o_formulas, inp), nontrivial_key=(inp['epoch'], round(lat, 6)))
+    for i in range(12 * scale):
+        p = ps[(5 * i + 3) % len(ps)]
+        inp = {'a': float(round(p['a'])), 'f': p['f'] if i % 3 else 1.0 / 298.257223563, 'GM': float(round(p['GM'])), 'w': p['w'],
+               'lat': (0, 90, -90, 45, -45, 30)[i % 6] if i < 12 else int(ctx.rng.integers(-90, 91)), 'h': int(ctx.rng.integers(0, max(2, int(0.005 * p['a']))))}
+        ctx.check('types', inp, cm_call(o_types, inp), nontrivial_key=(inp['lat'], inp['h'], round(inp['a'])))
     ctx.samples.append({'kind': 'search', 'oracle': 'identities', 'input': ps[3]})
